@@ -116,6 +116,12 @@ def scenarios(ctx):
         out.append(base_sc(rot=False, comp=ext, payload=payloads[(i + 1) % 4], encoding=encodings[(i + 1) % 4],
                            pre=[["A_b_0", "a", [PRE + 6]]] if i % 2 else [["A_b_0", "a", [PRE + 6]], ["A_R_6_1_b_0", "a", [PRE + 7]]],
                            ops=[W(), W(), S(), ["r"], W(), S()]))
+    # file-name length and script: every format with a long ASCII / long CJK / mixed non-ASCII base name,
+    # closed at rotation (renamed name = even longer) and at the final stop
+    for i, ext in enumerate(CEXTS):
+        out.append(base_sc(comp=ext, stem=c08.LONG_STEMS[i % len(c08.LONG_STEMS)], dir="logs",
+                           payload=payloads[i % 4], ops=[W(), W(1), W(), S()]))
+    out += c08.chdir_scenarios(["gz", "tar", "zip"])
     out.append(base_sc(comp="call", ops=[I(), W(), W(1), W(), S()]))
     out.append(base_sc(comp="call", rot=False, ops=[W(), S()]))
     out.append(base_sc(comp="call", timed=True, ops=[W(0, 1), W(1, 2), W(1, 2), S(2)]))
